@@ -283,6 +283,19 @@ def _run_layout(case, seed, td):
         return {"viol": viol, "sig": sig, "nontrivial": False}
 
     n_eval = 0
+    # 0. history: the same configuration objects used a second time (a second run of one configuration) must give
+    #    the same problem - building a problem must not modify the declared boundaries
+    try:
+        problem_again, _ = calib.real_problem(cal, proc)
+        b1 = [[float(v) for v in x] for x in problem.get_bounds()]
+        b2 = [[float(v) for v in x] for x in problem_again.get_bounds()]
+        same = len(b1[0]) == len(b2[0]) and all(
+            (a == b) or (np.isnan(a) and np.isnan(b)) for x, y in zip(b1, b2) for a, b in zip(x, y))
+        if not same:
+            bad("second-build-differs", f"building the problem a second time from the same configuration objects gives "
+                f"bounds {b2} instead of {b1} (the declared boundaries were modified)")
+    except Exception as e:  # noqa: BLE001
+        bad("second-build-differs", f"building the problem a second time raised {type(e).__name__}: {str(e)[:200]}")
     # 1. bounds
     try:
         lo, hi = problem.get_bounds()
